@@ -134,6 +134,10 @@ class EstimationMethod:
                 progress=progress,
                 # demography.PopulationSizeHistory provides as_dict() for saving
                 population_size=Ne.as_dict() if hasattr(Ne, "as_dict") else Ne,
+                constr_iterations=constr_iterations,
+                min_branch_length=min_branch_length,
+                allow_unary=allow_unary,
+                set_metadata=set_metadata,
             )
 
         if constr_iterations is None:
